@@ -158,11 +158,29 @@ Theorem C01_peer_within_cutoff_contributes_nothing : forall cfg rm pm nref npeer
 Proof. exact cutoff_contributes_nothing. Qed.
 Print Assumptions C01_peer_within_cutoff_contributes_nothing.
 
-(* the round-level oracle holds for every pair of offsets, whatever the oracle knows about them *)
-Theorem C01_round_oracle : forall cfg rm pm nref npeer ro po kr kp,
+(* stale values: a measurement slice whose old values and whose arrivals of this round are all within the cutoff
+   (and below 2^62 ns) yields an aggregated offset within the cutoff, and stays such a slice: peers that have never
+   been beyond the cutoff contribute nothing, however many of them fail *)
+Theorem C01_stale_peers_within_cutoff : forall cfg old arr s' o,
+  peer_small cfg 0 = true -> Forall (fun v => peer_small cfg v = true) old -> Forall (fun v => peer_small cfg v = true) arr ->
+  measure old arr = (s', o) -> Forall (fun v => peer_small cfg v = true) s' /\ peer_small cfg o = true.
+Proof. exact measure_small. Qed.
+Print Assumptions C01_stale_peers_within_cutoff.
+
+(* the oracle with the clause about peers within the cutoff switched off (scenarios that leave open which answers
+   were counted) holds for every run as well *)
+Theorem C01_run_oracle_env : forall env cfg D nref npeer rs, in_i64 (c_interval cfg) -> in_i64 D ->
+  C01_ok_env env cfg nref npeer rs (run cfg D nref npeer rs) = true.
+Proof. exact run_oracle_env. Qed.
+Print Assumptions C01_run_oracle_env.
+
+(* the round-level oracle holds for every pair of offsets, whatever the oracle knows about them (pe: it has seen
+   every peer answer counted so far within the cutoff - then so is the aggregated peer offset, C01_stale_peers_within_cutoff) *)
+Theorem C01_round_oracle : forall cfg rm pm nref npeer pe ro po kr kp,
   cap_ok rm -> cap_ok pm -> in_i64 ro -> in_i64 po ->
   (kr = None \/ kr = Some ro) -> (kp = None \/ (kp = Some po /\ po <> min_i64)) ->
-  round_ok cfg rm pm nref npeer kr kp (Sync.round cfg rm pm nref npeer ro po) = true.
+  (pe = true -> peer_small cfg po = true) ->
+  round_ok cfg rm pm nref npeer pe kr kp (Sync.round cfg rm pm nref npeer ro po) = true.
 Proof. exact round_ok_model. Qed.
 Print Assumptions C01_round_oracle.
 
